@@ -11,7 +11,7 @@ CONSTANTS MasterVersion, LocalVersion, Centre, SubCentre
 Ident == [Ident0 EXCEPT !.mversion = MasterVersion, !.lversion = LocalVersion, !.centre = Centre, !.subcentre = SubCentre]
 
 EmitEntry(e) ==
-    [lab |-> e.lab, t |-> e.t, w |-> e.w, sc |-> e.sc, link |-> e.link, d |-> e.d, p |-> e.p,
+    [lab |-> e.lab, t |-> e.t, w |-> e.w, sc |-> e.sc, link |-> e.link, d |-> e.d, p |-> e.p, mean |-> e.mean,
      v |-> [i \in 1..Len(e.v) |-> [miss |-> e.v[i].miss, raw |-> e.v[i].raw, N |-> NOf(e, i)]]]
 
 Behaviour ==
@@ -24,5 +24,22 @@ Behaviour ==
      msg |-> IF Mode = "produce" THEN Message(ed, Ident, <<>>, nsub, TRUE, cmp, Templates[tid], bits) ELSE <<>>,
      subsets |-> [s \in 1..Len(AllOut) |-> [i \in 1..Len(AllOut[s]) |-> EmitEntry(AllOut[s][i])]]]
 
+(* ---- C06: the subsets of an uncompressed message one by one, and in reverse order ---------- *)
+RECURSIVE SubsetEnd(_)
+SubsetEnd(k) == IF k = 0 THEN 0 ELSE IF AllOut[k] = <<>> THEN SubsetEnd(k - 1) ELSE AllOut[k][Len(AllOut[k])].p
+SubsetBits(s) == SubSeq(bits, SubsetEnd(s - 1) + 1, SubsetEnd(s))
+RECURSIVE RevBits(_)
+RevBits(s) == IF s = 0 THEN <<>> ELSE SubsetBits(s) \o RevBits(s - 1)
+
+Splittable == Mode = "produce" /\ err = "" /\ ~cmp /\ nsub > 1
+BehaviourWithSolo ==
+    [b |-> Behaviour,
+     solo |-> IF Splittable THEN [s \in 1..nsub |-> Message(ed, Ident, <<>>, 1, TRUE, FALSE, Templates[tid], SubsetBits(s))] ELSE <<>>,
+     rev |-> IF Splittable THEN Message(ed, Ident, <<>>, nsub, TRUE, FALSE, Templates[tid], RevBits(nsub)) ELSE <<>>]
+
 Emit == Finished => PrintT(ToJson(Behaviour))
+EmitSolo == Finished => PrintT(ToJson(BehaviourWithSolo))
+
+(* every subset starts from the initial registers, whatever the previous subset left behind *)
+SubsetsStartFresh == [][sub' # sub => (reg' = R0 /\ frames' = <<>> /\ pc' = 1 /\ phase' = "pre")]_vars
 =============================================================================
